@@ -370,48 +370,65 @@ theorem run_refines (ops : List (Spec.SSeq.Op Elem)) :
     exact ⟨by rw [ih'.1], ih'.2.1, ih'.2.2.1, ih'.2.2.2.1, by rw [ih'.2.2.2.2.1, s5], MemSame.trans s6 ih'.2.2.2.2.2⟩
 
 /-! ### constructor and destructor -/
-/-- `new_conf`: capacity 0 (and a capacity so large that `ex >= CC_MAX_ELEMENTS / capacity`) is
-rejected before anything is allocated -/
+/-- `new_conf`: capacity 0, a capacity so large that `ex >= CC_MAX_ELEMENTS / capacity`, element
+size 0 and a capacity whose buffer would exceed `CC_MAX_ELEMENTS` bytes are all rejected before
+anything is allocated -/
 theorem new_invalid (dl cap : Nat) (grow : Nat → Nat) (exGe : Nat → Bool) (m : Mem)
-    (hc : cap = 0 ∨ exGe (CC_MAX_ELEMENTS / cap) = true) :
+    (hc : cap = 0 ∨ exGe (CC_MAX_ELEMENTS / cap) = true ∨ dl = 0 ∨ CC_MAX_ELEMENTS / dl < cap) :
     ArraySized.new dl cap grow exGe m = (.errInvalidCapacity, none, m) := by
   unfold ArraySized.new
-  have : (decide (cap = 0) || exGe (CC_MAX_ELEMENTS / cap)) = true := by
-    rcases hc with hc | hc <;> simp [hc]
-  rw [this]; rfl
+  by_cases h1 : (decide (cap = 0) || exGe (CC_MAX_ELEMENTS / cap)) = true
+  · rw [if_pos h1]
+  · rw [if_neg h1]
+    have : (decide (dl = 0) || decide (cap > CC_MAX_ELEMENTS / dl)) = true := by
+      rcases hc with hc | hc | hc | hc
+      · simp [hc] at h1
+      · simp [hc] at h1
+      · simp [hc]
+      · simp; omega
+    rw [if_pos this]
+
+/-- the guards of the constructor, read off a call that got past them -/
+theorem new_guards (dl cap : Nat) (grow : Nat → Nat) (exGe : Nat → Bool) (m : Mem)
+    (h : (ArraySized.new dl cap grow exGe m).1 ≠ .errInvalidCapacity) :
+    0 < cap ∧ 0 < dl ∧ cap * dl ≤ CC_MAX_ELEMENTS ∧ cap ≤ CC_MAX_ELEMENTS := by
+  have h1 : ¬ (cap = 0 ∨ exGe (CC_MAX_ELEMENTS / cap) = true ∨ dl = 0 ∨ CC_MAX_ELEMENTS / dl < cap) := by
+    intro hc; rw [new_invalid dl cap grow exGe m hc] at h; exact h rfl
+  have hcap : 0 < cap := by apply Nat.pos_of_ne_zero; intro hh; exact h1 (Or.inl hh)
+  have hdl : 0 < dl := by apply Nat.pos_of_ne_zero; intro hh; exact h1 (Or.inr (Or.inr (Or.inl hh)))
+  have hle : cap ≤ CC_MAX_ELEMENTS / dl := by
+    apply Nat.le_of_not_lt; intro hh; exact h1 (Or.inr (Or.inr (Or.inr hh)))
+  have hmul : cap * dl ≤ CC_MAX_ELEMENTS := (Nat.le_div_iff_mul_le hdl).1 hle
+  exact ⟨hcap, hdl, hmul, Nat.le_trans (Nat.le_mul_of_pos_right cap hdl) hmul⟩
 
 /-- a successful construction yields an empty array satisfying the invariant and owning two
-blocks; `hex`: the effective expansion factor is positive (it is > 1), so `ex >= 0` -/
+blocks; the element size is ≥ 1 and the buffer size in bytes `capacity * data_length` is at most
+`CC_MAX_ELEMENTS < 2^64`, so the product handed to `mem_alloc` did not wrap around `size_t` -/
 theorem new_ok (dl cap : Nat) (grow : Nat → Nat) (exGe : Nat → Bool) (m m' : Mem) (a : ArraySized)
-    (hdl : 0 < dl) (hex : exGe 0 = true)
     (hnew : ArraySized.new dl cap grow exGe m = (.ok, some a, m')) :
     a.Inv ∧ a.abs = [] ∧ a.dataLen = dl ∧ a.capacity = cap ∧ a.grow = grow ∧
-    m'.live = m.live + 2 ∧ m'.fault = m.fault := by
+    m'.live = m.live + 2 ∧ m'.fault = m.fault ∧ a.capacity * a.dataLen ≤ CC_MAX_ELEMENTS ∧
+    a.capacity * a.dataLen < 2 ^ 64 := by
+  obtain ⟨hcap, hdl, hmul, hcm⟩ := new_guards dl cap grow exGe m (by rw [hnew]; simp)
   unfold ArraySized.new at hnew
   split at hnew
   · simp at hnew
-  · rename_i hc
-    dsimp only at hnew
-    split at hnew
+  · split at hnew
     · simp at hnew
-    · split at hnew
+    · dsimp only at hnew
+      split at hnew
       · simp at hnew
-      · rename_i h1 h2
-        simp only [Prod.mk.injEq, Option.some.injEq, true_and] at hnew
-        obtain ⟨ha, hm⟩ := hnew
-        subst ha hm
-        have e1 := Mem.alloc_fst_true m (by simpa using h1)
-        have e2 := Mem.alloc_fst_true m.alloc.2 (by simpa using h2)
-        have hc0 : cap ≠ 0 ∧ exGe (CC_MAX_ELEMENTS / cap) = false := by
-          simp only [Bool.or_eq_true, decide_eq_true_eq, not_or] at hc
-          exact ⟨hc.1, by simpa using hc.2⟩
-        have hcm : cap ≤ CC_MAX_ELEMENTS := by
-          apply Nat.le_of_not_lt; intro hlt
-          have : CC_MAX_ELEMENTS / cap = 0 := Nat.div_eq_of_lt hlt
-          rw [this, hex] at hc0
-          exact absurd hc0.2 (by simp)
-        refine ⟨⟨hdl, Nat.pos_of_ne_zero hc0.1, Nat.zero_le _, by simp [fresh], hcm⟩, by simp [abs], rfl, rfl, rfl, by rw [e2.1, e1.1], ?_⟩
-        rw [e2.2.1, e1.2.1]
+      · split at hnew
+        · simp at hnew
+        · rename_i h1 h2
+          simp only [Prod.mk.injEq, Option.some.injEq, true_and] at hnew
+          obtain ⟨ha, hm⟩ := hnew
+          subst ha hm
+          have e1 := Mem.alloc_fst_true m (by simpa using h1)
+          have e2 := Mem.alloc_fst_true m.alloc.2 (by simpa using h2)
+          have hM : CC_MAX_ELEMENTS < 2 ^ 64 := by decide
+          refine ⟨⟨hdl, hcap, Nat.zero_le _, by simp [fresh], hcm⟩, by simp [abs], rfl, rfl, rfl,
+            by rw [e2.1, e1.1], by rw [e2.2.1, e1.2.1], hmul, Nat.lt_of_le_of_lt hmul hM⟩
 
 /-- a refused construction yields no object and leaves the ledger as it was -/
 theorem new_refused (dl cap : Nat) (grow : Nat → Nat) (exGe : Nat → Bool) (m : Mem)
@@ -420,18 +437,20 @@ theorem new_refused (dl cap : Nat) (grow : Nat → Nat) (exGe : Nat → Bool) (m
   unfold ArraySized.new at h ⊢
   split
   · exact ⟨rfl, MemSame.refl m⟩
-  · dsimp only
-    cases h1 : m.alloc.1
-    · have e := Mem.alloc_fst_false m h1
-      simp [MemSame, e]
-    · have e1 := Mem.alloc_fst_true m h1
-      cases h2 : m.alloc.2.alloc.1
-      · have e2 := Mem.alloc_fst_false m.alloc.2 h2
-        have f := free_of_pos m.alloc.2.alloc.2 (by omega)
-        simp only [Bool.not_true, Bool.false_eq_true, if_false, Bool.not_false, if_true]
-        exact ⟨trivial, by rw [f.1, e2.1, e1.1]; omega, by rw [f.2, e2.2.1, e1.2.1]⟩
-      · rename_i hc
-        simp [hc, h1, h2] at h
+  · split
+    · exact ⟨rfl, MemSame.refl m⟩
+    · rename_i hc hd
+      dsimp only
+      cases h1 : m.alloc.1
+      · have e := Mem.alloc_fst_false m h1
+        simp [MemSame, e]
+      · have e1 := Mem.alloc_fst_true m h1
+        cases h2 : m.alloc.2.alloc.1
+        · have e2 := Mem.alloc_fst_false m.alloc.2 h2
+          have f := free_of_pos m.alloc.2.alloc.2 (by omega)
+          simp only [Bool.not_true, Bool.false_eq_true, if_false, Bool.not_false, if_true]
+          exact ⟨trivial, by rw [f.1, e2.1, e1.1]; omega, by rw [f.2, e2.2.1, e1.2.1]⟩
+        · simp [hc, hd, h1, h2] at h
 
 /-- `destroy` releases the two blocks of an array -/
 theorem destroy_ledger (a : ArraySized) (m : Mem) (h : 2 ≤ m.live) :
